@@ -102,6 +102,14 @@ def bool_edges(fn, bb):
         return None
     arms = t[4]
     if len(arms) == 1 and arms[0][0] == 0:
+        op = t[3]
+        # only switches on a bool operand are boolean (a one-armed switch on a discriminant is not)
+        if op[0] in "cm":
+            ty = place_type(fn, op[1])
+            if ty is not None and ty != "bool":
+                return None
+        elif op[0] == "k" and op[1] != "bool":
+            return None
         return (arms[0][1], t[5])
     return None
 
@@ -157,6 +165,8 @@ def enum_variant_by_discr(prog, adt_name, value):
         return ["Ok", "Err"][value]
     if adt_name.startswith("std::ops::ControlFlow") and value in (0, 1):
         return ["Continue", "Break"][value]
+    if adt_name.startswith("std::cmp::Ordering"):
+        return {0: "Equal", 1: "Greater", 255: "Less", -1: "Less"}.get(value)
     return None
 
 
